@@ -54,37 +54,6 @@ def _exp_ok(exp, want_spec_typeerror):
     return want_spec_typeerror is None or spec_te == want_spec_typeerror
 
 
-def pred_f6_accessor(case, rec, exp):
-    """F6: non-configurable ACCESSOR in the target, trap result / defined descriptor is an accessor descriptor;
-    goja's SameAs tests are inverted: either the implementation threw where the spec accepts or vice versa."""
-    if not _lat(case):
-        return _hist_f6(case, rec)
-    d = _desc_of(case)
-    p = _prop_at(case)
-    if d is None or p is None or not p.get("acc") or p.get("c"):
-        return False
-    if not _is_acc(d) or _is_data(d):
-        return False
-    return _exp_ok(exp, not _threw(rec))
-
-
-def pred_f6_kind(case, rec, exp):
-    """F6 (second half): defineProperty trap returned true for a descriptor of the other kind (data vs accessor)
-    without [[Configurable]] on a non-configurable target property: accepted, spec demands TypeError."""
-    if not _lat(case):
-        return False
-    c = case["call"]
-    d = _desc_of(case)
-    p = _prop_at(case)
-    if c["trap"] != "defineProperty" or d is None or p is None or p.get("c"):
-        return False
-    if "configurable" in d or _is_acc(d) == _is_data(d):
-        return False
-    if _is_acc(d) == bool(p.get("acc")):
-        return False
-    return (not _threw(rec)) and _exp_ok(exp, True)
-
-
 def pred_undef_accessor(case, rec, exp):
     """getOwnPropertyDescriptor trap returned an accessor descriptor whose get and set are both undefined:
     the proxy reports a DATA descriptor {value: undefined, writable: false}."""
@@ -99,73 +68,140 @@ def pred_undef_accessor(case, rec, exp):
     return '"acc":false' in rec.get("obs", "") and _exp_ok(exp, None)
 
 
-def _hist_f6(case, rec):
-    return isinstance(case, dict) and case.get("kind") == "hist" and "F6:" in rec.get("obs", "")
-
-
-def _hist_op(case, rec):
-    m = re.search(r"^DIFF: first difference at op (\d+): direct=(.*?)\| proxied=(.*?)\|", rec.get("obs", ""))
+def _hist_diff(case, rec):
+    """(op at the first difference, direct result, direct log, proxied result, proxied log) of a history case"""
+    m = re.search(r"^DIFF: first difference at op (\d+): direct=(.*?) proxied=(.*)$", rec.get("obs", ""), re.S)
     if not (isinstance(case, dict) and case.get("kind") == "hist" and m):
-        return None, None, None
+        return None
     i = int(m.group(1))
     ops = case.get("ops", [])
-    return (ops[i] if i < len(ops) else None), m.group(2), m.group(3)
+    if i >= len(ops):
+        return None
+    d, p = m.group(2), m.group(3)
+    if "|" not in d or "|" not in p:
+        return None
+    dr, dl = d.rsplit("|", 1)
+    pr, pl = p.rsplit("|", 1)
+    return ops[i], dr, dl, pr, pl, ops[:i]
 
 
-def pred_sym_setter(case, rec, exp):
+def pred_stale_writable(case, rec, exp):
     """direct object: [[Set]] on an own getter-only accessor that was converted from a data property by defineProperty
-    reports success (Reflect.set true, strict assignment does not throw); through the forwarding proxy it correctly fails."""
-    op, d, p = _hist_op(case, rec)
-    if not op or op.get("o") != "set":
+    reports success (Reflect.set true, strict assignment does not throw, with a foreign receiver the property is even
+    created there); through the forwarding proxy it fails (false / TypeError) as the spec says."""
+    h = _hist_diff(case, rec)
+    if not h:
         return False
-    return (d, p) in (("set:T", "set:F"), ("set:ok", "set:TypeError"))
+    op, dr, dl, pr, pl, before = h
+    if op.get("o") != "set":
+        return False
+    conv = any(o.get("o") == "define" and o.get("k", 0) == op.get("k", 0) and o.get("d") and "get" in o["d"] and
+               not o["d"].get("set") for o in before)
+    return conv and (dr.startswith("set:T") or dr == "set:ok") and pr in ("set:F", "set:TypeError")
+
+
+def pred_stale_getter(case, rec, exp):
+    """direct object: defineProperty {writable: ...} without value on a configurable accessor turns the descriptor into a
+    data descriptor but reads still invoke the old getter; the proxy (which trusts the descriptor) then differs."""
+    h = _hist_diff(case, rec)
+    if not h:
+        return False
+    op, dr, dl, pr, pl, before = h
+    if op.get("o") not in ("get", "keys", "set"):
+        return False
+    same_key = lambda o: op.get("o") == "keys" or o.get("k", 0) == op.get("k", 0)
+    conv = any(o.get("o") == "define" and same_key(o) and o.get("d") and "writable" in o["d"] and
+               not any(f in o["d"] for f in ("value", "get", "set")) for o in before)
+    return conv and "get@" in dl
 
 
 def pred_keys_drop_index(case, rec, exp):
-    """Object.keys/entries/for-in style enumeration through the proxy lacks exactly one array-index key that the direct
-    object lists (root cause not analysed yet)."""
-    op, d, p = _hist_op(case, rec)
-    if not op or op.get("o") != "keys" or not d.startswith("keys:[") or not p.startswith("keys:["):
+    """arguments object: a mapped index redefined non-enumerable is still listed by Object.keys/entries/for-in on the
+    object itself; the proxy (which filters by getOwnPropertyDescriptor) omits it as the spec says."""
+    h = _hist_diff(case, rec)
+    if not h:
         return False
-    dl = re.findall(r'"((?:[^"\\]|\\.)*)"', d)
-    pl = re.findall(r'"((?:[^"\\]|\\.)*)"', p)
-    missing = [x for x in dl if x not in pl]
-    return len(dl) == len(pl) + 1 and len(missing) == 1 and re.match(r"^\d+(=|$)", missing[0]) is not None
-
-
-def _hist_raw(case, rec):
-    m = re.search(r"^DIFF: first difference at op (\d+): direct=(.*) proxied=(.*)$", rec.get("obs", ""), re.S)
-    if not (isinstance(case, dict) and case.get("kind") == "hist" and m):
-        return None, "", ""
-    i = int(m.group(1))
-    ops = case.get("ops", [])
-    return (ops[i] if i < len(ops) else None), m.group(2), m.group(3)
+    op, dr, dl, pr, pl, before = h
+    if op.get("o") != "keys" or case.get("target") != "arguments" or not dr.startswith("keys:[") or not pr.startswith("keys:["):
+        return False
+    dk = re.findall(r'"((?:[^"\\\\]|\\\\.)*)"', dr)
+    pk = re.findall(r'"((?:[^"\\\\]|\\\\.)*)"', pr)
+    missing = [x for x in dk if x not in pk]
+    return len(dk) == len(pk) + len(missing) and 1 <= len(missing) <= 2 and all(re.match(r"^[01](\\?=|$)", x) for x in missing)
 
 
 def pred_frozen_arguments(case, rec, exp):
-    """Object.isFrozen/isSealed on a proxy over a non-extensible arguments object answers true where the arguments object
-    itself answers false (root cause not analysed yet)."""
-    op, d, p = _hist_raw(case, rec)
-    return bool(op) and op.get("o") == "isext" and case.get("target") == "arguments" and \
-        d.startswith("isext:F|") and p.startswith("isext:T|")
+    """Object.isSealed/isFrozen on a sealed/frozen arguments object answer false on the object itself (mapped arguments are
+    not valueProperty values in the type switch); through the proxy the answer is true as the spec says."""
+    h = _hist_diff(case, rec)
+    if not h:
+        return False
+    op, dr, dl, pr, pl, before = h
+    return op.get("o") == "isext" and case.get("target") == "arguments" and dr == "isext:F" and pr == "isext:T"
 
 
-def pred_delete_calls_getter(case, rec, exp):
-    """a failing strict-mode delete of a non-configurable accessor invokes the getter (for the error message); through a
-    trap-less proxy the getter then sees the raw target as `this`."""
-    op, d, p = _hist_raw(case, rec)
-    return bool(op) and op.get("o") == "delete" and d.startswith("delete:TypeError|get@SELF") and \
-        p.startswith("delete:TypeError|get@TARGET")
+def pred_error_path_getter(case, rec, exp):
+    """a failing delete / setPrototypeOf / ... builds its TypeError message (even when it then only returns false) by
+    stringifying the object or the property value, which runs user getters; target and proxy agree on the result and
+    differ only in these spurious getter calls."""
+    h = _hist_diff(case, rec)
+    if not h:
+        return False
+    op, dr, dl, pr, pl, before = h
+    if dr != pr or not (dr.endswith(":TypeError") or dr.endswith(":F")) or op.get("o") not in ("delete", "setproto", "prevext", "define", "set"):
+        return False
+    ents = [e for e in dl.split(",") if e]
+    return dl != pl and len(ents) > 0 and all(e.startswith("get@") for e in ents) and all(e.startswith("get@") for e in pl.split(",") if e)
+
+
+def pred_length_rangeerror(case, rec, exp):
+    """array whose length is non-writable (frozen): assigning an invalid length throws RangeError on the array itself (the
+    value is validated before writability); spec and the proxy path: false / TypeError in strict code."""
+    h = _hist_diff(case, rec)
+    if not h:
+        return False
+    op, dr, dl, pr, pl, before = h
+    return op.get("o") == "set" and op.get("k", 0) == 2 and case.get("target") == "array" and dr == "set:RangeError" and \
+        pr in ("set:F", "set:TypeError", "set:0")
+
+
+def pred_stale_writable_model(case, rec, exp):
+    """model history: data -> accessor -> data (value given, writable not given) on one key: the property ends up
+    writable:true (stale flag of its first data incarnation), the spec and the model say writable:false."""
+    if not (isinstance(case, dict) and case.get("kind") == "model"):
+        return False
+    m = re.search(r"^final=(\{.*?\}) all=", rec.get("obs", ""))
+    if not m:
+        return False
+    try:
+        fin = json.loads(m.group(1))
+    except ValueError:
+        return False
+    for p in fin.get("props", []):
+        d = p.get("d") or {}
+        if d.get("acc") or not d.get("w"):
+            continue
+        defs = [o for o in case.get("ops", []) if o.get("o") == "define" and o.get("k", 0) == p.get("k") and o.get("d")]
+        acc_seen = False
+        for o in defs:
+            dd = o["d"]
+            if "get" in dd or "set" in dd:
+                if "value" not in dd and "writable" not in dd:
+                    acc_seen = True
+            elif acc_seen and "value" in dd and "writable" not in dd:
+                return True
+    return False
 
 
 PREDICATES = {
-    "C11.isfrozen_true_on_proxy_of_arguments": pred_frozen_arguments,
-    "C11.strict_delete_failure_calls_getter": pred_delete_calls_getter,
-    "C11.getter_only_set_reports_success": pred_sym_setter,
-    "C11.proxy_enumeration_drops_index_key": pred_keys_drop_index,
-    "C11.f6_accessor_sameas_inverted": pred_f6_accessor,
-    "C11.f6_kind_change_accepted": pred_f6_kind,
+    "C11.data_accessor_data_keeps_writable": pred_stale_writable_model,
     "C11.gopd_undefined_accessor_reported_as_data": pred_undef_accessor,
+    "C11.getter_only_set_reports_success": pred_stale_writable,
+    "C11.accessor_to_data_keeps_getter": pred_stale_getter,
+    "C11.arguments_enumeration_ignores_enumerable": pred_keys_drop_index,
+    "C11.issealed_false_on_sealed_arguments": pred_frozen_arguments,
+    "C11.error_path_calls_getter": pred_error_path_getter,
+    "C11.array_length_rangeerror_before_writable": pred_length_rangeerror,
 }
 
 
@@ -213,29 +249,38 @@ def preclassify(ctx, recs, bad):
     return order, counts
 
 
-def lattice_stage(ctx):
-    if not getattr(ctx, "model_ok", True):
-        return
-    binp = getattr(ctx, "binp", None) or vcheck.build_harness(ctx)
-    if not binp:
-        return
+def _lattice_compute(ctx, binp):
+    """generate the exhaustive lattice and evaluate it in Coq (no reporting): runs concurrently with the history stage"""
     parts = vcheck.NCPU
     jobs = []
     for j in range(parts):
         outp = os.path.join(ctx.work, "lat_%d.jsonl" % j)
         jobs.append(([binp, "gen", "-seed", str(ctx.seed), "-n", "0", "-o", outp, "-tier", ctx.tier,
                       "-x", "mode=lattice,part=%d,parts=%d" % (j, parts)], outp))
-    recs = []
+    recs, crash = [], None
     with cf.ThreadPoolExecutor(max_workers=parts) as ex:
         futs = [ex.submit(vcheck.sh, c, None, vcheck.GOENV, 1200) for c, _ in jobs]
         for (c, outp), fu in zip(jobs, futs):
             rc, out = fu.result()
             if rc != 0:
-                ctx.log("lattice gen rc=%d: %s" % (rc, out[-1500:]))
-                ctx.harness_crash = (c, rc, out[-4000:])
+                crash = (c, rc, out[-4000:])
             recs += vcheck.read_jsonl(outp)
-    ctx.log("lattice: %d cells" % len(recs))
     bad, errs, _ = vcheck.coq_eval(ctx, recs, tag="l")
+    return recs, bad, errs, crash
+
+
+def lattice_stage(ctx):
+    if not getattr(ctx, "model_ok", True):
+        return
+    binp = getattr(ctx, "binp", None) or vcheck.build_harness(ctx)
+    if not binp:
+        return
+    fut = getattr(ctx, "lat_future", None)
+    recs, bad, errs, crash = fut.result() if fut else _lattice_compute(ctx, binp)
+    if crash:
+        ctx.log("lattice gen rc=%d: %s" % (crash[1], crash[2][-1500:]))
+        ctx.harness_crash = crash
+    ctx.log("lattice: %d cells" % len(recs))
     for e in errs:
         ctx.log("coq eval error (lattice): " + e[-800:])
         ctx.eval_errors = True
@@ -268,6 +313,9 @@ def hist_stage(ctx):
     if not binp or not getattr(ctx, "model_ok", True):
         return
     ctx.binp = binp
+    ctx.log("harness built")
+    ctx.lat_pool = cf.ThreadPoolExecutor(max_workers=1)
+    ctx.lat_future = ctx.lat_pool.submit(_lattice_compute, ctx, binp)
     known = [k for k in vcheck.load_known()["open"] if k["property"] == ctx.pid]
 
     def split(recs, bad):
@@ -320,8 +368,10 @@ def hist_stage(ctx):
             ctx.log("coq eval error on corpus: " + e[-500:])
             ctx.eval_errors = True
         ctx.cov["corpus_cases"] = len(recs)
+        ctx.log("corpus: %d cases, %d differ" % (len(recs), len(bad)))
         if bad:
             handle(recs, bad, "corpus")
+        ctx.log("corpus handled")
         all_recs += recs
     recs = vcheck.harness_gen(ctx, binp, cfg["n"][ctx.tier], ctx.seed, extra=cfg.get("gen_extra"))
     ctx.log("generated %d history/revocation cases" % len(recs))
@@ -342,6 +392,11 @@ def candidates(case):
         if case.get("layers", 1) > 1:
             out.insert(0, dict(case, layers=1))
         return out
+    if isinstance(case, dict) and case.get("kind") == "model":
+        out = vcheck.default_candidates(case)
+        if case.get("layers", 1) > 1:
+            out.insert(0, dict(case, layers=1))
+        return out
     return []
 
 
@@ -351,8 +406,8 @@ CFG = {
     "prop_file": "Properties/C11.v",
     "run_modules": ["Verif.C11.Run"],
     "coq_dirs": ["C11"],
-    "n": {"quick": 520, "thorough": 50000},
-    "shard": 700,
+    "n": {"quick": 330, "thorough": 50000},
+    "shard": 250,
     "max_report": 8,
     "level": "proof",
     "rule": ("(a) lattice, enumerated exhaustively: for each of the 13 traps, post-trap target states {key absent | data "
@@ -363,10 +418,12 @@ CFG = {
              "| wrong prototype | non-object}, handler as JS object and as Go ProxyTrapConfig, Reflect.* and syntax/Object.* "
              "surfaces; non-trivial = the trap result is not the honest one; (b) random histories of 5..40 operations applied "
              "in lock-step to a target and to a 1-3 layer forwarding proxy over a clone (plain object, array, function, "
-             "arguments, String object; JS Reflect handler, empty handler, Go handler); non-trivial = some mutation succeeded; "
+             "arguments, String object; JS Reflect handler, empty handler, Go handler), observations compared between the two; "
+             "(b') every third case: a history on a modelled plain object (string keys) through 1-3 forwarding layers, results "
+             "and final target state checked against the target model ord_step; non-trivial = some mutation succeeded; "
              "(c) revoked proxies; distinct = by hash of the case"),
     "theorem_names": ["checks_eq_spec", "checks_eq_spec_other_traps", "ownkeys_eq", "honest_accepted", "forwarding_transparent",
-                      "goja_forwarding_transparent", "lying_has", "lying_delete", "lying_get", "lying_set", "lying_extensibility",
+                      "goja_forwarding_transparent", "compat_eq", "define_eq", "lying_has", "lying_delete", "lying_get", "lying_set", "lying_extensibility",
                       "lying_prototype", "lying_ownkeys", "lying_gopd", "lying_define", "lying_construct", "revoked_throws"],
     "allowed_axioms": [],
     "trusted_base": [
@@ -387,7 +444,7 @@ CFG = {
     "stages": [hist_stage, lattice_stage],
     "manifest": {
         "text": ("Proxy invariant enforcement: goja's post-trap checks (transcribed) are proved equal to the ECMA-262 10.5 "
-                 "post-conditions for all trap results and all target states (except the recorded F6 region), honest "
+                 "post-conditions for all trap results and all target states (only guard left: open finding F6c), honest "
                  "handlers are always accepted, each class of lying result is rejected, n-layer forwarding is transparent; "
                  "the transcription is tied to /repo by an exhaustive honest/lying lattice and forwarding histories"),
         "note": ("trusted: Coq kernel, the hand transcription of proxy.go and of the spec, the Go/JS harness; the "
